@@ -13,7 +13,18 @@ pending action | entering the downstream observer | a point inside the downstrea
 is one action of the Coq transition system, which is run under the SAME schedule (log equality).
 Oracle (never consults the model): delivered ids against the producer's program (exactly once, in order,
 complete at quiescence unless a delivery raised, nothing after a raise), enter/exit overlap, delivering thread.
-Sanity: observe_on on the virtual-time TestScheduler preserves the notification sequence."""
+Sanity: observe_on on the virtual-time TestScheduler preserves the notification sequence.
+
+"On the target scheduler": in pipeline mode the subscription is made with a SECOND scheduler
+(`subscribe(..., scheduler=other)`, what `_observeon.py` receives as subscribe_scheduler); it must never be asked
+to schedule anything, and every delivery must run on a worker thread of the observe_on scheduler.
+Inline target schedulers (oracle only, one thread, no controller): observe_on(ImmediateScheduler()) and an idle
+CurrentThreadScheduler run `run` INSIDE ensure_active (Immediate: recursively, from run's own re-schedule); the
+subscriber feeds a value back into the source from inside a delivery.  Reference: the deliveries are the
+notifications in the order they were handed to the observer, each one finished before the next begins.
+Real target schedulers (oracle only, no controller): EventLoopScheduler and ThreadPoolScheduler with real threads,
+a producer pushing a few hundred notifications through observe_on; the run is judged at quiescence (terminal
+delivered / a delivery raised, with a generous deadline) by the same statements."""
 import json
 import os
 import sys
@@ -88,6 +99,7 @@ class World:
         self.done_ident = None
         self.escaped = []                       # exceptions that reached the scheduler
         self.sched = k3x.CtlScheduler(self)
+        self.sub_sched = None
         self.raises = set(sc["raises"])
         for p in sc["progs"]:
             for op in gated(p):
@@ -111,8 +123,12 @@ class World:
                 box["o"] = observer
                 return Disposable()
             src = reactivex.Observable(subscribe)
+            # the subscription is made with ANOTHER scheduler: observe_on must deliver on ITS scheduler, never on the
+            # one passed at subscribe time (which nobody runs: anything scheduled there is also never delivered)
+            self.sub_sched = SubscribeScheduler()
             src.pipe(ops.observe_on(self.sched)).subscribe(
-                lambda v: spy.deliver(v), lambda e: spy.deliver(e.ident), lambda: spy.deliver(self.done_ident))
+                lambda v: spy.deliver(v), lambda e: spy.deliver(e.ident), lambda: spy.deliver(self.done_ident),
+                scheduler=self.sub_sched)
             self.target = box["o"]
         elif mode == "replay":
             # the REAL ReplaySubject on the harness scheduler: thread 0 feeds the subject, thread 1 subscribes
@@ -149,6 +165,34 @@ class World:
                                    lambda: spy.deliver(self.done_ident))
         else:
             raise ValueError(op)
+
+
+class SubscribeScheduler:
+    """the scheduler handed to subscribe() in pipeline mode.  It is NOT the target of observe_on: every call of
+    schedule* is recorded (and judged by the oracle); nothing scheduled here ever runs."""
+
+    def __init__(self):
+        from datetime import datetime, timezone
+        self.calls = []
+        self.t0 = datetime(2026, 1, 1, tzinfo=timezone.utc)
+
+    @property
+    def now(self):
+        return self.t0
+
+    def _rec(self, what, action):
+        from reactivex.disposable import Disposable
+        self.calls.append((what, getattr(action, "__qualname__", repr(action))))
+        return Disposable()
+
+    def schedule(self, action, state=None):
+        return self._rec("schedule", action)
+
+    def schedule_relative(self, duetime, action, state=None):
+        return self._rec("schedule_relative", action)
+
+    def schedule_absolute(self, duetime, action, state=None):
+        return self._rec("schedule_absolute", action)
 
 
 class Spy:
@@ -296,10 +340,13 @@ def oracle(sc, log, w):
             open_ = None
     if open_ is not None:
         bad.append(("never-returned", f"delivery {open_} never returned"))
-    # on the target scheduler
+    # on the target scheduler: on one of ITS threads, and nothing handed to the subscribe-time scheduler
     for e in log:
         if e[1] == "enter" and e[0] < nprod:
             bad.append(("delivered-on-producer-thread", f"delivery {e[2]} ran on producer thread {e[0]}"))
+    if w.sub_sched is not None and w.sub_sched.calls:
+        bad.append(("scheduled-on-the-subscribe-scheduler",
+                    f"observe_on(target) asked the scheduler passed to subscribe() to run {w.sub_sched.calls}"))
     # exactly once
     for i in set(entered):
         if entered.count(i) > 1:
@@ -435,6 +482,278 @@ def virtual_time_sanity(chk, n):
 
 
 # --------------------------------------------------------------------------
+# inline target schedulers (one thread, no controller; oracle only)
+# --------------------------------------------------------------------------
+
+def inline_run(sc):
+    """sc = {"mode": "inline", "via": "pipeline" | "observer", "scheduler": "immediate" | "current_thread",
+             "prog": [[kind, ident]...], "feedback": {ident: ident2}, "raises": [ident...]}
+    The producer (this thread) hands `prog` to the source one by one; while delivery `ident` is in progress the
+    subscriber hands on_next(ident2) to the same source (once).  -> log of
+    ("recv", i) the notification is handed to observe_on's observer | ("enter", i) | ("exit", i) | ("raise", i) |
+    ("escaped", i) an exception came back to the caller of on_xxx"""
+    from reactivex import operators as ops
+    from reactivex.observer import ObserveOnObserver
+    from reactivex.scheduler import CurrentThreadScheduler, ImmediateScheduler
+    from reactivex.subject import Subject
+    sch = ImmediateScheduler() if sc["scheduler"] == "immediate" else CurrentThreadScheduler()
+    feedback = {int(k): v for k, v in sc.get("feedback", {}).items()}
+    raises = set(sc.get("raises", []))
+    done = [i for k, i in sc["prog"] if k != "next"]
+    done_ident = done[0] if done else None
+    log, fed = [], set()
+    box = {}
+
+    def send(kind, ident):
+        log.append(("recv", ident))
+        t = box["t"]
+        try:
+            if kind == "next":
+                t.on_next(ident)
+            elif kind == "error":
+                t.on_error(NoteError(ident))
+            else:
+                t.on_completed()
+        except DeliveryError as e:
+            log.append(("escaped", e.ident))
+
+    def deliver(ident):
+        log.append(("enter", ident))
+        if ident in feedback and ident not in fed:
+            fed.add(ident)
+            send("next", feedback[ident])
+        if ident in raises:
+            log.append(("raise", ident))
+            raise DeliveryError(ident)
+        log.append(("exit", ident))
+
+    class Down:
+        def on_next(self, v):
+            deliver(v)
+
+        def on_error(self, e):
+            deliver(e.ident)
+
+        def on_completed(self):
+            deliver(done_ident)
+
+    if sc["via"] == "observer":
+        box["t"] = ObserveOnObserver(sch, Down())
+    else:
+        src = Subject()
+        src.pipe(ops.observe_on(sch)).subscribe(deliver, lambda e: deliver(e.ident), lambda: deliver(done_ident))
+        box["t"] = src
+    for kind, ident in sc["prog"]:
+        send(kind, ident)
+    return log
+
+
+def inline_oracle(sc, log):
+    """reference from the property text.  One thread and a scheduler that runs what it is given at once: when the
+    producer's call returns the scheduler is idle, so everything handed over so far must have been delivered --
+    in the order handed over, one delivery finished before the next begins; after a delivery raised: nothing."""
+    bad = []
+    received, entered, open_ = [], [], None
+    raised = None
+    for k, i in log:
+        if k == "recv":
+            received.append(i)
+        elif k == "enter":
+            if raised is not None:
+                bad.append(("delivered-after-raise", f"delivery {i} after delivery {raised} raised"))
+            if open_ is not None:
+                bad.append(("nested", f"delivery {i} began inside delivery {open_}"))
+            if i in entered:
+                bad.append(("delivered-twice", f"notification {i}"))
+            entered.append(i)
+            open_ = i
+        elif k in ("exit", "raise"):
+            if open_ == i:
+                open_ = None
+            if k == "raise" and raised is None:
+                raised = i
+    if open_ is not None and raised is None:
+        bad.append(("never-returned", f"delivery {open_}"))
+    if entered != received[:len(entered)]:
+        bad.append(("out-of-order", f"handed over {received}, delivered {entered}"))
+    elif raised is None and len(entered) < len(received):
+        bad.append(("undelivered-at-quiescence", f"handed over {received}, delivered {entered}, scheduler idle"))
+    return bad
+
+
+INLINE_FIXED = [
+    {"prog": [["next", 1], ["next", 2], ["completed", 3]], "feedback": {}, "raises": []},
+    # the subscriber feeds one value back from inside a delivery
+    {"prog": [["next", 1], ["next", 2], ["completed", 3]], "feedback": {"1": 10}, "raises": []},
+    # a chain: the fed-back value feeds another one back
+    {"prog": [["next", 1], ["next", 2]], "feedback": {"1": 10, "10": 11, "2": 20}, "raises": []},
+    # the fed-back delivery raises: nothing further
+    {"prog": [["next", 1], ["next", 2], ["error", 3]], "feedback": {"1": 10}, "raises": [10]},
+    # the feeding delivery itself raises after feeding: the fed value must not be delivered
+    {"prog": [["next", 1], ["next", 2]], "feedback": {"1": 10}, "raises": [1]},
+    {"prog": [["next", 1], ["error", 2]], "feedback": {"1": 10}, "raises": []},
+]
+
+
+def gen_inline(tier, rng):
+    scs = []
+    for base in INLINE_FIXED:
+        for via in ("pipeline", "observer"):
+            for sch in ("immediate", "current_thread"):
+                scs.append(dict(base, mode="inline", via=via, scheduler=sch))
+    for _ in range(40 if tier == "quick" else 600):
+        n = rng.randrange(1, 6)
+        prog = [["next", i + 1] for i in range(n)]
+        if rng.random() < 0.5:
+            prog.append([rng.choice(["completed", "error"]), n + 1])
+        fb, nxt = {}, 10
+        for i in range(1, n + 1):
+            if rng.random() < 0.4:
+                fb[str(i)] = nxt
+                if rng.random() < 0.3:
+                    fb[str(nxt)] = nxt + 1
+                nxt += 2
+        ids = [i for _, i in prog] + list(fb.values())
+        raises = [rng.choice(ids)] if rng.random() < 0.3 else []
+        scs.append({"mode": "inline", "via": rng.choice(["pipeline", "observer"]),
+                    "scheduler": rng.choice(["immediate", "current_thread"]), "prog": prog, "feedback": fb,
+                    "raises": raises})
+    return scs
+
+
+# --------------------------------------------------------------------------
+# real target schedulers (real threads, no controller; oracle only)
+# --------------------------------------------------------------------------
+
+SMOKE_DEADLINE = 25.0      # seconds without ANY progress before a run is declared stuck
+
+
+def smoke_run(sc):
+    """sc = {"mode": "smoke", "scheduler": "eventloop" | "threadpool", "n": int, "raise_at": int | None,
+             "terminal": "completed" | "error" | None}
+    -> (log [(kind, ident, thread id)], facts)"""
+    import threading
+    from reactivex import operators as ops
+    from reactivex.scheduler import EventLoopScheduler, ThreadPoolScheduler
+    from reactivex.subject import Subject
+    kind = sc["scheduler"]
+    sch = EventLoopScheduler() if kind == "eventloop" else ThreadPoolScheduler(max_workers=4)
+    n, raise_at, terminal = sc["n"], sc.get("raise_at"), sc.get("terminal")
+    last = n + 1 if terminal else n
+    lk = threading.Lock()          # the harness's own lock: log order = real order of enter / leave
+    log, state = [], {"open": 0, "overlap": []}
+    finished = threading.Event()
+
+    def deliver(ident):
+        me = threading.get_ident()
+        with lk:
+            state["open"] += 1
+            if state["open"] > 1:
+                state["overlap"].append(ident)
+            log.append(("enter", ident, me))
+        if ident % 7 == 0:
+            time.sleep(0)          # give up the GIL inside the delivery now and then
+        with lk:
+            state["open"] -= 1
+            if ident == raise_at:
+                log.append(("raise", ident, me))
+            else:
+                log.append(("exit", ident, me))
+        if ident == raise_at:
+            finished.set()
+            raise DeliveryError(ident)
+        if ident == last:
+            finished.set()
+
+    old_hook = threading.excepthook
+
+    def hook(args):
+        if not isinstance(args.exc_value, DeliveryError):
+            old_hook(args)
+    threading.excepthook = hook
+    producer = threading.get_ident()
+    src = Subject()
+    facts = {"producer": producer, "stuck": False}
+    try:
+        src.pipe(ops.observe_on(sch)).subscribe(deliver, lambda e: deliver(e.ident), lambda: deliver(n + 1))
+        for i in range(1, n + 1):
+            src.on_next(i)
+        if terminal == "completed":
+            src.on_completed()
+        elif terminal == "error":
+            src.on_error(NoteError(n + 1))
+        # quiescence: the last notification was delivered / a delivery raised; give up only after a long time
+        # without any progress at all
+        seen, t_last = -1, time.time()
+        while not finished.wait(0.02):
+            with lk:
+                cur = len(log)
+            if cur != seen:
+                seen, t_last = cur, time.time()
+            elif time.time() - t_last > SMOKE_DEADLINE:
+                facts["stuck"] = True
+                break
+        if raise_at is not None:
+            time.sleep(0.15)       # anything delivered after the raise would show up here
+    finally:
+        threading.excepthook = old_hook
+        try:
+            if kind == "eventloop":
+                sch.dispose()
+            else:
+                sch.executor.shutdown(wait=False)
+        except Exception:  # noqa
+            pass
+    with lk:
+        return list(log), dict(facts, overlap=list(state["overlap"]))
+
+
+def smoke_oracle(sc, log, facts):
+    bad = []
+    n, raise_at, terminal = sc["n"], sc.get("raise_at"), sc.get("terminal")
+    received = list(range(1, n + 1)) + ([n + 1] if terminal else [])
+    entered = [e[1] for e in log if e[0] == "enter"]
+    if facts["overlap"]:
+        bad.append(("overlap", f"deliveries {facts['overlap'][:5]} began while another one was open"))
+    open_ = None
+    for k, i, _t in log:
+        if k == "enter":
+            if open_ is not None:
+                bad.append(("overlap", f"delivery {i} entered while {open_} is open"))
+            open_ = i
+        else:
+            open_ = None
+    if len(set(entered)) != len(entered):
+        bad.append(("delivered-twice", f"{[i for i in set(entered) if entered.count(i) > 1][:5]}"))
+    if entered != received[:len(entered)]:
+        bad.append(("out-of-order", f"delivered {entered[:40]}..., sent 1..{len(received)}"))
+    threads = {t for k, _i, t in log if k == "enter"}
+    if facts["producer"] in threads:
+        bad.append(("delivered-on-producer-thread", "a delivery ran on the thread that called on_next"))
+    if sc["scheduler"] == "eventloop" and len(threads) > 1:
+        bad.append(("delivered-off-the-loop-thread", f"deliveries ran on {len(threads)} threads of an EventLoopScheduler"))
+    if raise_at is not None and raise_at in entered:
+        after = entered[entered.index(raise_at) + 1:]
+        if after:
+            bad.append(("delivered-after-raise", f"{after[:5]} after delivery {raise_at} raised"))
+    elif len(entered) < len(received):
+        bad.append(("undelivered-at-quiescence",
+                    f"{len(entered)} of {len(received)} delivered, no progress for {SMOKE_DEADLINE} s"))
+    return bad
+
+
+def gen_smoke(tier, rng):
+    scs = []
+    for kind in ("eventloop", "threadpool"):
+        for k in range(6 if tier == "quick" else 40):
+            n = rng.choice([50, 200, 400])
+            scs.append({"mode": "smoke", "scheduler": kind, "n": n,
+                        "raise_at": (rng.randrange(1, n + 1) if k % 3 == 2 else None),
+                        "terminal": rng.choice(["completed", "completed", "error", None])})
+    return scs
+
+
+# --------------------------------------------------------------------------
 # the check
 # --------------------------------------------------------------------------
 
@@ -505,6 +824,54 @@ def run(chk):
             detail["model_says"] = lib.coq_show(chk.pid, IMPORTS, f"{MODEL} {inp}")
         chk.tie_broken("correspondence K3: transition system Core/SchedObs.v vs implementation under the same schedule",
                        detail)
+    # inline target schedulers: one thread, the subscriber feeds values back (oracle only)
+    inl = {"runs": 0, "with_feedback": 0, "with_raise": 0, "by_scheduler": {}, "by_via": {}, "distinct": set(),
+           "fed_back_deliveries": 0}
+    for sc in gen_inline(tier, chk.rng):
+        try:
+            st_, log = lib.with_timeout(20, inline_run, sc)
+        except RecursionError:
+            st_, log = "recursion", None
+        if st_ != "ok":
+            chk.violation(f"C32|inline-{sc['scheduler']}|did-not-terminate",
+                          {"mode": "inline", "scenario": sc, "oracle": "did-not-terminate", "what": st_}, size=len(sc["prog"]))
+            continue
+        chk.cov["evaluations"] += 1
+        inl["runs"] += 1
+        inl["with_feedback"] += 1 if sc["feedback"] else 0
+        inl["with_raise"] += 1 if sc["raises"] else 0
+        inl["by_scheduler"][sc["scheduler"]] = inl["by_scheduler"].get(sc["scheduler"], 0) + 1
+        inl["by_via"][sc["via"]] = inl["by_via"].get(sc["via"], 0) + 1
+        inl["distinct"].add(json.dumps([sc["scheduler"], sc["via"], log]))
+        fedvals = set(sc["feedback"].values())
+        inl["fed_back_deliveries"] += sum(1 for k, i in log if k == "enter" and i in fedvals)
+        for tag, msg in inline_oracle(sc, log):
+            chk.violation(f"C32|inline-{sc['scheduler']}|{tag}",
+                          {"mode": "inline", "scenario": sc, "implementation_log": log, "oracle": tag, "what": msg},
+                          size=len(sc["prog"]) + len(sc["feedback"]))
+        if inl["runs"] in (2, 30):
+            samples.append({"scenario": sc, "observed_log": log})
+    inl["distinct"] = len(inl["distinct"])
+    # real target schedulers: real threads, judged at quiescence (oracle only)
+    smk = {"runs": 0, "by_scheduler": {}, "deliveries": 0, "with_raise": 0, "stuck": 0, "seconds": 0.0,
+           "delivering_threads_max": 0}
+    t_s = time.time()
+    for sc in gen_smoke(tier, chk.rng):
+        if smk["stuck"]:
+            break                  # one stuck run is a violation already; do not wait for more deadlines
+        log, facts = smoke_run(sc)
+        chk.cov["evaluations"] += 1
+        smk["runs"] += 1
+        smk["by_scheduler"][sc["scheduler"]] = smk["by_scheduler"].get(sc["scheduler"], 0) + 1
+        smk["deliveries"] += sum(1 for e in log if e[0] == "enter")
+        smk["with_raise"] += 1 if sc.get("raise_at") is not None else 0
+        smk["stuck"] += 1 if facts["stuck"] else 0
+        smk["delivering_threads_max"] = max(smk["delivering_threads_max"], len({e[2] for e in log if e[0] == "enter"}))
+        for tag, msg in smoke_oracle(sc, log, facts):
+            chk.violation(f"C32|real-{sc['scheduler']}|{tag}",
+                          {"mode": "smoke", "scenario": sc, "oracle": tag, "what": msg,
+                           "implementation_log_head": [list(e[:2]) for e in log[:60]]}, size=sc["n"])
+    smk["seconds"] = round(time.time() - t_s, 2)
     vt_bad = virtual_time_sanity(chk, 60 if tier == "quick" else 600)
     chk.add_samples(samples[:6], limit=6)
     chk.cov["distinct_nontrivial"] = len(stats["nontrivial"])
@@ -518,13 +885,23 @@ def run(chk):
         f"plus {nrandom} seeded random schedules per scenario; every run compared step-for-step with the Coq transition "
         "system under the same schedule and judged by the direct oracle at quiescence.  non-trivial = a schedule with "
         "at least one preemption, counted as distinct (scenario, schedule).  Plus observe_on on the virtual-time "
-        "TestScheduler (sequence preserved).")
+        "TestScheduler (sequence preserved).  In pipeline mode the subscription is made with a second scheduler that "
+        "must receive no schedule call.  INLINE (oracle only, one thread): observe_on(ImmediateScheduler()) and an idle "
+        "CurrentThreadScheduler, directly and through the pipeline, 1-5 next + optional terminal, the subscriber feeding "
+        "a value (or a chain of two) back into the source from inside a delivery, optional raising delivery; reference: "
+        "deliveries = the notifications in hand-over order, never nested, complete when the producer's call has returned, "
+        "nothing after a raise.  REAL SCHEDULERS (oracle only, real threads): EventLoopScheduler and ThreadPoolScheduler(4) "
+        "as observe_on targets, 50-400 notifications pushed by the checking thread, judged at quiescence (terminal or "
+        f"raising delivery seen; stuck = no progress for {SMOKE_DEADLINE:.0f} s): once, in order, no overlap, not on the "
+        "producer thread, one thread for the event loop, silence after a raise.")
     chk.cov["input_distribution"] = {
         "scenarios": len(scs), "runs_by_mode": stats["modes"], "runs_by_workers": stats["workers"],
         "runs_with_a_raising_delivery": stats["raising"], "k3_runs": stats["runs"],
         "k3_scheduled_steps_total": stats["steps"], "k3_preemption_bound": bound, "random_schedules_per_scenario": nrandom,
         "virtual_time_cases": 60 if tier == "quick" else 600, "virtual_time_failures": vt_bad,
         "k3_impl_seconds": stats["impl_s"],
+        "pipeline_runs_subscribed_with_a_second_scheduler": stats["modes"].get("pipeline", 0),
+        "inline_scheduler_runs": inl, "real_scheduler_runs": smk,
         "k3_self_test": {k: {"schedules": v["schedules"], "runs_seen": v["runs_seen"]} for k, v in st.items()},
     }
     return chk.finish(
@@ -541,8 +918,9 @@ def run(chk):
             "attribute loads/stores are atomic; a `with self.lock:` block is atomic with respect to every other access "
             "made under the same lock.  The one unlocked access (queue.append) is its own step of the model",
             "granularity: the model (and K3) interleave at locked blocks, the unlocked append, calls out of the object and "
-            "the downstream callback; CPython can also preempt between the bytecodes of one such step and real "
-            "scheduler threads (EventLoopScheduler, ThreadPoolScheduler, asyncio) are not exercised here -> partial",
+            "the downstream callback; CPython can also preempt between the bytecodes of one such step -> partial.  Real "
+            "scheduler threads (EventLoopScheduler, ThreadPoolScheduler) are exercised only by uncontrolled runs whose "
+            "interleavings are left to the OS (a smoke test, not an exploration); asyncio targets are not exercised",
             "producer calls on one observer are serial (Rx contract), so the Observer base class's is_stopped gate is "
             "thread-local; the model starts at _on_*_core.  dispose() of the observer during delivery is not modelled",
             "the target scheduler runs every scheduled action eventually and any number of its threads may run actions "
@@ -566,6 +944,32 @@ def replay(chk, path):
         print("schedule", [x for x, _ in c.trace])
         print("implementation log", log)
         print("oracle", bad or "ok")
+        if bad:
+            print(f"VIOLATION property=C32 replay={path}")
         return 1 if bad else 0
+    if d.get("mode") == "inline":
+        sc = d["scenario"]
+        log = inline_run(sc)
+        bad = inline_oracle(sc, log)
+        print("scenario", sc)
+        print("implementation log", log)
+        print("oracle", bad or "ok")
+        if bad:
+            print(f"VIOLATION property=C32 replay={path}")
+        return 1 if bad else 0
+    if d.get("mode") == "smoke":
+        # real threads: not deterministic; the scenario is repeated
+        sc = d["scenario"]
+        for k in range(20):
+            log, facts = smoke_run(sc)
+            bad = smoke_oracle(sc, log, facts)
+            if bad:
+                print("scenario", sc, "repetition", k)
+                print("oracle", bad)
+                print(f"VIOLATION property=C32 replay={path}")
+                return 1
+        print("scenario", sc, "20 repetitions: ok")
+        return 0
     print(json.dumps(d, indent=1)[:4000])
+    print(f"VIOLATION property=C32 replay={path}")
     return 1
